@@ -394,11 +394,56 @@ def _overlay_eval(db, chk, cp, rule) -> bool:
     return True
 
 
+def _opener_eval(db, mod, q):
+    """which opener a reader / writer of trace files calls for a '.json' and for a '.json.gz' path - decided by abstract runs with open / gzip.open hooked.
+    True: plain open for .json and gzip.open for .json.gz (exactly one opener call each); False: another choice; None: not decided"""
+    from ..core.interp import Interp
+    from ..core.values import Obj
+    f = mod.func(q)
+    verdicts = []
+    for path, want in (("/d/rank0.json", "open"), ("/d/rank0.json.gz", "gzip.open")):
+        opened = []
+
+        def hook(I, name, pos, kw, node):
+            short = name.replace("builtins.", "")
+            if short in ("open", "gzip.open"):
+                opened.append((short, pos[0] if pos else kw.get("filename", kw.get("file"))))
+                return Obj("file", attrs={"__lines__": []})
+            last = name.split(".")[-1]
+            if last in ("load", "loads"):
+                return {"traceEvents": [], "distributedInfo": {"rank": 0}}
+            if last in ("dump", "dumps", "write", "read", "close", "seek", "truncate"):
+                return "" if last in ("dumps", "read") else None
+            return NotImplemented
+        args = {}
+        for p_ in H.param_names(f):
+            if p_ in ("self", "cls"):
+                args[p_] = Obj(p_, cls=(mod, q.split(".")[0]) if "." in q else None)
+            elif p_ == "file_list" or p_.endswith("_list") or p_ == "files":
+                args[p_] = [path]
+            elif "path" in p_ or "file" in p_ or "name" in p_:
+                args[p_] = path
+            else:
+                args[p_] = {"traceEvents": [], "distributedInfo": {"rank": 0}}
+        try:
+            runs = [r for r in Interp(db, call_hook=hook).explore(f"{mod.name}:{q}", lambda I, a=args: dict(a))]
+        except Exception:          # noqa
+            return None
+        if len(runs) != 1 or runs[0].path or len(opened) != 1 or opened[0][1] != path:
+            return None
+        verdicts.append(opened[0][0] == want)
+    return all(verdicts)
+
+
 def _compression(db, chk, tf, tm, tp):
     rule = "C20.R3-compression-convention"
     sites = [(tp, "parse_trace_dict", "reader"), (tf, "read_trace", "reader"), (tf, "create_rank_to_trace_dict", "reader"), (tf, "write_trace", "writer"), (tm, "Trace.write_raw_trace", "writer")]
     for mod, q, kind in sites:
         f = mod.func(q)
+        sem = _opener_eval(db, mod, q)
+        if sem is not None:
+            chk.ob(rule, f"[abstract run] {kind} {mod.name}:{q} opens a .json path with open and a .json.gz path with gzip.open", sem, mod.loc(f), found="as expected" if sem else "another opener for one of the two paths",
+                   accepted="open for .json, gzip.open for .json.gz", why="a writer that always compresses produces a gzip stream under a .json name that none of the readers can load (F4)", key=f"{mod.name}:{q}|opener-by-suffix")
         unit = H.with_private_callees(mod, f)          # the opener may be chosen in a private helper
         walk_unit = lambda: (n for g_ in unit for n in ast.walk(g_))
         # uses of the two openers, called directly or selected by reference (`opener = gzip.open if ... else open`)
@@ -424,7 +469,8 @@ def _compression(db, chk, tf, tm, tp):
                 cur = mod.parent.get(id(cur))
             guarded = guarded and found
         ok = bool(gz) and bool(plain) and bool(tests) and guarded
-        chk.ob(rule, f"{kind} {mod.name}:{q} chooses gzip exactly when the file name ends with .gz, and plain text otherwise", ok, mod.loc(f),
+        if not (sem is True and not ok):          # (the shape rule defers to the abstract run where it does not recognise the selection)
+          chk.ob(rule, f"{kind} {mod.name}:{q} chooses gzip exactly when the file name ends with .gz, and plain text otherwise", ok, mod.loc(f),
                found={"gzip.open": len(gz), "open": len(plain), "suffix tests": [ast.unparse(t) for t in tests]}, accepted="gzip.open(...) if path.endswith('.gz') else open(...)",
                why="a writer that always compresses produces a gzip stream under a .json name that none of the readers can load (F4)", key=f"{mod.name}:{q}|always-gzip")
     g = H.inline_helpers(db.mod("hta.trace_analysis"), db.mod("hta.trace_analysis").func("TraceAnalysis.generate_trace_with_counters"))
